@@ -8,8 +8,8 @@ class Prop:
     ID = None
     THEOREMS = []            # names proved in Properties/<ID>.v (the proof obligations)
     HARNESS = None           # harness dispatch name (default ID)
-    MODEL_ENTRY = None       # driver entry id of the model output
-    ORACLE_ENTRY = None      # driver entry id of the property oracle on (case, impl output)
+    MODEL_ENTRY = 0          # driver entry of the model output (None: no model run)
+    ORACLE_ENTRY = 1         # driver entry of the property oracle on (case, impl output) (None: none)
     NEED_BINS = False
     LEVEL = "proof"
     TRUSTED = []
@@ -68,10 +68,10 @@ def evaluate(prop, cases):
     """run impl, model and oracle on cases -> list of dict(case, impl, model, oracle_ok, same)"""
     lines = [c for c, _ in cases]
     impl = prop.impl_outputs(lines)
-    model = core.run_model(prop.MODEL_ENTRY, lines) if prop.MODEL_ENTRY is not None else [None] * len(lines)
+    model = core.run_model(prop.ID, prop.MODEL_ENTRY, lines) if prop.MODEL_ENTRY is not None else [None] * len(lines)
     if prop.ORACLE_ENTRY is not None:
         pairs = [f"({c} {o})" for c, o in zip(lines, impl)]
-        orc = core.run_model(prop.ORACLE_ENTRY, pairs)
+        orc = core.run_model(prop.ID, prop.ORACLE_ENTRY, pairs)
     else:
         orc = ["1"] * len(lines)
     res = []
@@ -91,13 +91,13 @@ def run_check(pid, tier="quick", seed=0, replay=None):
         ok, out = core.gen_consts()
         if not ok:
             problems.append(("translator", out[-2000:]))
-        targets = [f"theories/Properties/{pid}.vo", "theories/Properties/Pins.vo", "theories/Model/Entry.vo"]
+        targets = [f"theories/Properties/{pid}.vo", f"theories/Properties/{pid}Pins.vo", f"theories/Model/Entry_{pid}.vo"]
         ok, out = core.coq_make(targets, clean=(tier == "thorough" and os.environ.get("VERIF_CLEAN") == "1"))
         proof_ok = ok
         if not ok:
             problems.append(("proof", out[-3000:]))
             # the models may still build: try the model closure alone so the search can run
-            ok2, out2 = core.coq_make(["theories/Model/Entry.vo"])
+            ok2, out2 = core.coq_make([f"theories/Model/Entry_{pid}.vo"])
             if not ok2:
                 problems.append(("model-build", out2[-3000:]))
         bad = core.audit_sources()
@@ -108,10 +108,10 @@ def run_check(pid, tier="quick", seed=0, replay=None):
             assum, fails = core.audit_assumptions(pid, prop.THEOREMS)
             if fails:
                 problems.append(("audit", "; ".join(fails)))
-        ok, out = core.build_driver()
+        ok, out = core.build_driver(pid)
         if not ok:
             problems.append(("driver-build", out[-3000:]))
-        ok, out = core.build_harness(bins=prop.NEED_BINS)
+        ok, out = core.build_harness(prop.HARNESS or pid, bins=prop.NEED_BINS)
         if not ok:
             problems.append(("harness-build", out[-3000:]))
             log(out[-3000:])
